@@ -11,7 +11,7 @@ spec/GenWire.tla:
 The Go side holds no oracle; this module only routes files, classifies disagreements by the listed
 findings (ctx.known) and writes the evidence.
 """
-import json, os, glob
+import json, os, glob, sys
 from vlib import Inconclusive
 
 SHARDS = 16
@@ -381,3 +381,64 @@ def c27(ctx):
 
 
 FAMILY = {"C26": c26, "C27": c27, "C29": c29, "C42": c42}
+
+
+def c28(ctx):
+    """No client byte stream crashes the broker or disturbs other clients.  The structured malformed inputs and their
+    classification come from TLC (Wire.tla through GenWire job c27: cuts, re-framings, +1 on every length field); whether the
+    live broker survives them, closes or serves the connection, ends the handler and keeps serving the reference clients is
+    an OBSERVATION of the running code (a child process, because a panic in a connection goroutine kills the process)."""
+    size = 1
+    stride = 24 if ctx.quick else 3
+    prefix, r, rows, bases = _gen(ctx, "c27", size, stride=stride, offset=ctx.seed % stride, timeout=2400)
+    vw = _vwire(ctx)
+    out = ctx.path("gen", "r_c28.json")
+    prog = ctx.path("gen", "c28_progress.txt")
+    nrandom = 800 if ctx.quick else 30000
+    import subprocess
+    from vlib import goenv
+    env = goenv()
+    env["VERIF_SEED"] = str(ctx.seed)
+    try:
+        p = subprocess.run([vw, "c28", prefix, str(SHARDS), out, str(nrandom), prog], capture_output=True, text=True, timeout=3000, env=env, cwd=ctx.work)
+    except subprocess.TimeoutExpired:
+        last = open(prog).read().strip() if os.path.exists(prog) else "?"
+        raise Inconclusive("live byte-stream run timed out; last input: %s" % last[:300])
+    last = open(prog).read().strip() if os.path.exists(prog) else ""
+    if p.returncode != 0:
+        err = p.stderr[-3000:]
+        if "panic:" in err or "fatal error:" in err:
+            what = [l for l in err.splitlines() if l.startswith("panic:") or l.startswith("fatal error:")][:1]
+            site = [l.strip() for l in err.splitlines() if "mochi-mqtt/server/v2" in l and "(" in l][:3]
+            ctx.violation("the broker process died: %s at %s while serving %s" % (what, site, last[:400]), dict(kind="c28", input=last, stderr=err[-1500:]))
+            ctx.cov.update(_level="exploration", states=max(r.distinct, 1), transitions=max(r.generated, 1), traces_validated_against_impl=0,
+                           evaluations=rows, distinct_nontrivial=2, rule="run aborted by a broker panic (see violation)", samples=[last[:300]])
+            return
+        sys.stderr.write(err)
+        raise Inconclusive("vwire c28 exited %d" % p.returncode)
+    res = json.load(open(out))
+    for x in res["handler_leak"][:5]:
+        ctx.violation("connection handler did not end after its connection was closed: %s" % x[:300], dict(kind="c28", input=x))
+    for x in res["ref_failures"][:5]:
+        ctx.violation("well-behaved clients were disturbed (QoS 1 exchange between the reference clients failed) %s" % x[:300], dict(kind="c28", input=x))
+    for ver, o in res["oversize"].items():
+        if o["connected"] and not o["closed_before_body"]:
+            ctx.violation("a packet announcing more than the configured maximum packet size was not refused before its body arrived (MQTT %s)" % ver, dict(kind="c28", oversize=o))
+    ctx.log("live run: %d inputs (%d table rows x 2 versions + %d mutations + oversize), outcomes %s, %d reference rounds" %
+            (res["inputs"], rows, nrandom, res["outcomes"], res["ref_rounds"]))
+    _cov(ctx, [r], traces_validated_against_impl=res["inputs"], evaluations=res["inputs"], distinct_nontrivial=res["classes"],
+         rule="TLC (GenWire job c27 over Wire.tla) emitted %d structured malformed inputs (every cut, every re-framed body prefix and +1 on every length "
+              "field of %d valid encodings, all packet types). Each was sent to a LIVE broker (maximum packet size 2048) on a fresh connection under MQTT "
+              "3.1.1 and 5 - after a valid CONNECT, or as the first packet for CONNECT-shaped inputs - followed by a PINGREQ, plus %d seeded mutations of "
+              "the table (1 in 5 as first packet). Observed per input: connection served / closed / waiting for more bytes; the handler ends when the "
+              "client closes; every 25 inputs two reference clients complete a QoS 1 publish/deliver/acknowledge round; a header announcing more than "
+              "the maximum size with 20 body bytes must be refused without waiting for the body. The harness runs as a child process: a panic in a "
+              "connection goroutine is reported with the input being served. distinct_nontrivial = distinct (corruption kind, version, first-packet, "
+              "outcome) classes." % (rows, bases, nrandom),
+         samples=[dict(outcomes=res["outcomes"], oversize=res["oversize"], last=last[:100])])
+    ctx.cov["_level"] = "exploration"
+    ctx.assumptions += ["the no-crash / no-disturbance verdict is an observation of the running broker on inputs chosen by the specification, not a TLC result",
+                        "in-process connections (net.Pipe), one malformed connection at a time"]
+
+
+FAMILY["C28"] = c28
